@@ -14,7 +14,10 @@ namespace Driver.Listing
 open NakenVerif NakenVerif.Memory NakenVerif.Listing
 open Driver.Mem (parseHex toHex hex2 unhexBytes parseDirective cellsOf renderRuns)
 
-def parseEmit (s : String) : Option Emit :=
+inductive Tok where
+  | skip (n : Nat) | data (b : BitVec 8) | code (b : BitVec 8) (op : Bool)
+
+def parseEmit (s : String) : Option Tok :=
   match s.toList with
   | 's' :: rest => (parseHex (String.ofList rest)).map .skip
   | 'd' :: rest => (parseHex (String.ofList rest)).map fun v => .data (BitVec.ofNat 8 v)
@@ -22,14 +25,29 @@ def parseEmit (s : String) : Option Emit :=
   | 'n' :: rest => (parseHex (String.ofList rest)).map fun v => .code (BitVec.ofNat 8 v) false
   | _ => none
 
+/-- skips, then pad bytes, then code bytes; anything else is outside the model -/
+def toEmits (ts : List Tok) : Option Emits :=
+  let skips := ts.takeWhile fun t => match t with | .skip _ => true | _ => false
+  let r1 := ts.dropWhile fun t => match t with | .skip _ => true | _ => false
+  let pads := r1.takeWhile fun t => match t with | .data _ => true | _ => false
+  let r2 := r1.dropWhile fun t => match t with | .data _ => true | _ => false
+  if r2.all fun t => match t with | .code _ _ => true | _ => false then
+    some { skip := (skips.map fun t => match t with | .skip n => n | _ => 0).sum,
+           pad := pads.filterMap fun t => match t with | .data b => some b | _ => none,
+           code := r2.filterMap fun t => match t with | .code b op => some (b, op) | _ => none }
+  else none
+
+def parseEmits (es : String) : Option Emits :=
+  if es == "-" then some { code := [] } else ((es.splitOn ",").mapM parseEmit).bind toEmits
+
 def parseSimple (tok : String) : Option Simple :=
   match tok.splitOn ":" with
   | ["ins", line, es] =>
-    match parseHex line, (if es == "-" then some [] else (es.splitOn ",").mapM parseEmit) with
+    match parseHex line, parseEmits es with
     | some l, some es => some (.instr (BitVec.ofNat 32 l) true es)
     | _, _ => none
   | ["inq", line, es] =>
-    match parseHex line, (if es == "-" then some [] else (es.splitOn ",").mapM parseEmit) with
+    match parseHex line, parseEmits es with
     | some l, some es => some (.instr (BitVec.ofNat 32 l) false es)
     | _, _ => none
   | _ => (parseDirective tok).map .dir
@@ -68,10 +86,10 @@ def renderLine (l : ILine) : String :=
 def renderDLine (l : DLine) : String :=
   toHex l.unit ++ ":" ++ String.join (l.cols.map fun c => match c with | some b => hex2 b.toNat | none => "__")
 
-def cellAddrs (c : Call) : List (BitVec 32) := c.lines.flatMap fun l => l.cells.map (·.addr)
+def callAddrs (c : Call) : List (BitVec 32) := c.lines.flatMap fun l => l.cells.map (·.addr)
 
 def callExact (c : Call) : Bool :=
-  cellAddrs c == addrRange c.first (if c.first ≤ c.stop then c.stop.toNat - c.first.toNat else 0)
+  callAddrs c == addrRange c.first (if c.first ≤ c.stop then c.stop.toNat - c.first.toNat else 0)
 
 def nodup (l : List (BitVec 32)) : Bool :=
   let s := l.foldl (fun (acc : Std.HashSet (BitVec 32)) a => acc.insert a) {}
